@@ -365,6 +365,33 @@ def sequences(ctx: core.Ctx, shard: int, nshards: int, maxlen: int) -> None:
                 ctx.run({"kind": "parse", "src": "".join(seq), "mode": "strict" if idx % 2 else "lax"}, enumerated=True)
 
 
+# per block tag that has branch tags: every sequence of its own opening, branch and end tags and a piece of text, in both
+# modes - unterminated blocks with extra branches, branches after else, end tags in the wrong place ...
+BRANCH_FAMILIES = [
+    ["{% if a %}", "{% elsif b %}", "{% else %}", "{% endif %}", "x"],
+    ["{% unless a %}", "{% elsif b %}", "{% else %}", "{% endunless %}", "x"],
+    ["{% case a %}", "{% when 1 %}", "{% else %}", "{% endcase %}", "x"],
+    ["{% for i in a %}", "{% else %}", "{% endfor %}", "{% break %}", "{% if a %}"],
+    ["{% if a %}", "{% else %}", "{% for i in a %}", "{% endfor %}", "{% endif %}"],
+    ["{% liquid\nif a\n", "else\n", "elsif b\n", "endif\n", "%}"],
+]
+
+
+def branch_sequences(ctx: core.Ctx, shard: int, nshards: int, maxlen: int) -> None:
+    import itertools
+
+    idx = 0
+    for fam in BRANCH_FAMILIES:
+        for n in range(2, maxlen + 1):
+            for seq in itertools.product(fam, repeat=n):
+                if seq[0] != fam[0]:
+                    continue  # (sequences that do not start with the opening tag fail at their first tag)
+                for mode in ("strict", "lax"):
+                    idx += 1
+                    if idx % nshards == shard:
+                        ctx.run({"kind": "parse", "src": "".join(seq), "mode": mode}, enumerated=True)
+
+
 @st.composite
 def sources(draw):
     r = core.rng(draw)
@@ -439,6 +466,7 @@ def _campaign(ctx: core.Ctx, tier: str, shard: int, nshards: int) -> None:
         if i % nshards == shard:
             ctx.run({"kind": "parse", "src": src, "mode": "strict" if i % 2 else "lax"})
     sequences(ctx, shard, nshards, 2 if quick else 3)
+    branch_sequences(ctx, shard, nshards, 5 if quick else 6)
     i = 0
     for prefix in SCALE_PREFIXES:
         for unit in SCALE_UNITS:
